@@ -2,6 +2,7 @@
 import core
 import cache_corr
 import transform_corr
+import c09
 
 RULE = ("random worlds x histories: every dry run's operation log must contain modified-time queries only; its physical plan is compared exactly "
         "with Cache/Transform.v; then from the same store state the real run and the returned plan executed alone (uberjob.run(physical, output=node), "
@@ -16,7 +17,7 @@ def run(ctx):
     specs = list(cache_corr.TARGETED.items()) * ctx.n(2, 6)
     for wi in range(ctx.n(70, 1500) + len(specs)):
         spec = specs[wi][1] if wi < len(specs) else None
-        w = cache_corr.World(uj, rng, maxn=ctx.n(8, 10), spec=spec, normalising=(wi % 2 == 1))
+        w = cache_corr.World(uj, rng, maxn=ctx.n(8, 10), spec=spec, normalising=((wi // len(cache_corr.TARGETED)) % 2 == 1) if spec is not None else (wi % 2 == 1))
         for step in range(ctx.n(4, 6)):
             output = rng.choice([None] + list(range(w.n)))
             fresh = cache_corr.random_fresh(w, rng)
@@ -41,6 +42,8 @@ def run(ctx):
                     n = pl.call(audit, out) if out is not None else pl.call(audit)
                     return pl, n
                 tp = rng.choice([None, lambda pl, out: (pl, out), add_audit])
+                if spec is not None and step == 0:
+                    tp = None          # the targeted worlds' first run (everything out of date) always gets the order monitor
                 ctx.count("transform_physical", "none" if tp is None else "audit" if tp is add_audit else "identity")
                 if tp is not None:
                     res = w.run(output, fresh, dry_run=True, transform=tp)
@@ -60,12 +63,22 @@ def run(ctx):
                     s.v, s.t = v, t
                 w.clock = clock
                 w.log, w.opcount = [], 0
+                sig_before_B = w.sigma()
                 try:
                     # "executing all nodes of that plan by itself, with no registry"
-                    r = uj.run(phys, output=[outnode, list(phys.graph.nodes())], progress=None, max_workers=rng.choice([1, 3]))
+                    nwB = rng.choice([1, 3])
+                    w.slow_writes = 0.003 if nwB > 1 else 0
+                    r = uj.run(phys, output=[outnode, list(phys.graph.nodes())], progress=None, max_workers=nwB)
                     resB = ("ok", r[0])
                 except uj.CallError as e:
                     resB = ("callerror", e)
+                finally:
+                    w.slow_writes = 0
+                if w.normalising and tp is None:
+                    # ... in the order the plan prescribes (write, read-back, consumers; dependent sources after what they depend on)
+                    utd_o, _ = w.up_to_date(sig_before_B, fresh)
+                    c09.order_monitor(ctx, w, output, resB if resB[0] != "ok" else ("ok", resB[1]), list(w.log),
+                                      set(w._stale_now) | {i for i, ok in utd_o.items() if not ok}, prefix="plan-alone:")
                 logB = sorted((k, i) for k, i, _ in w.log if k in ("call", "read", "write"))
                 afterB = [(s.v) for s in w.stores]
                 ctx.count("real_run_status", resA[0])
@@ -85,6 +98,50 @@ def run(ctx):
                     w.stores[s].v = w.stores[s].t = None
     tc.eval_model()
     retry_scenarios(ctx, uj)
+    file_dry_run(ctx, uj)
+
+
+def file_dry_run(ctx, uj):
+    """a dry run over the bundled file stores leaves the directory exactly as it found it - also a staging file that a
+    writer killed mid-write left behind (it belongs to the next write, which truncates it)"""
+    import os
+    import shutil
+    import tempfile
+    from uberjob.stores import JsonFileStore, PathSource, PickleFileStore, TextFileStore, TouchFileStore
+    for leftover in (False, True):
+        for present in (False, True):
+            d = tempfile.mkdtemp(prefix="ujc14_")
+            try:
+                P = lambda n: os.path.join(d, n)
+                with open(P("in.txt"), "w") as f:
+                    f.write("3")
+                plan, reg = uj.Plan(), uj.Registry()
+                src = plan.call(int, reg.source(plan, TextFileStore(P("in.txt"))))
+                stores = {"x.json": JsonFileStore, "y.pkl": PickleFileStore, "z.txt": TextFileStore, "t.touch": TouchFileStore}
+                prev = src
+                for name, cls in stores.items():
+                    prev = plan.call(lambda v: v, prev) if cls is not TouchFileStore else plan.call(lambda v: None, prev)
+                    reg.add(prev, cls(P(name)))
+                    if present and name in ("y.pkl",):
+                        cls(P(name)).write(1)
+                    if leftover:
+                        with open(P(name + ".STAGING"), "wb") as f:
+                            f.write(b"half-written by a killed writer")
+                snap = lambda: sorted((n, os.stat(P(n)).st_size, os.stat(P(n)).st_mtime_ns) for n in os.listdir(d))
+                before = snap()
+                try:
+                    uj.run(plan, registry=reg, dry_run=True, progress=None)
+                    oc = "returned"
+                except BaseException as e:      # noqa
+                    oc = "%s: %s" % (type(e).__name__, e)
+                after = snap()
+                ctx.case(("c14-file-dry-run", leftover, present))
+                if before != after or oc != "returned":
+                    ctx.fail("dry-run-touches-files", "a dry run over file stores (%s) %s; directory before %r, after %r"
+                             % ("with leftover .STAGING files" if leftover else "clean directory", oc, [b[0] for b in before], [a[0] for a in after]),
+                             {"leftover_staging": leftover, "before": before, "after": after})
+            finally:
+                shutil.rmtree(d, ignore_errors=True)
 
 
 def retry_scenarios(ctx, uj):
